@@ -115,7 +115,7 @@ Definition mixed_prog : sprog :=
    (corpus f_c04c_fieldmap_missing.json) *)
 Definition fmiss_prog : sprog :=
   SSeq (SNode sw_none 1 (spec_simple 2 "n1" 0 1 true false false false 0 false))
-  (SSeq (SMap (FTake 7))
+  (SSeq (SMap (FTake 7 false))
         (SNode sw_none 2 (spec_simple 0 "n2" 0 0 false false false true 0 true))).
 
 (* Workflow: fan-out to a map producer and a string producer, field mappings into distinct
@@ -157,3 +157,16 @@ Definition nested_prog : sprog :=
                      (spec_simple 1 "n3" 0 0 false false true false 0 false);
                SNode (sw_outkey 3) 4 (spec_simple 3 "n4" 7 0 false false false true 2 false)])
         (SNode sw_none 5 (spec_simple 1 "n5" 0 0 true false false false 0 false))).
+
+(* Workflow over nested maps: MapFields from a field that holds a map (a Stream-native map
+   producer in two chunks under the output key 0), ToField of a whole map, fan-in through
+   the distinct target fields 5 and 6; then FromField of the nested map under 5 *)
+Definition wfn_prog : sprog :=
+  SSeq (SPar [SSeq (SNode (sw_outkey 0) 1 (spec_simple 2 "n1" 2 3 false true false false 1 false))
+                   (SMap (FTo [(Some 0%N, 5%N)]));
+              SSeq (SNode sw_none 2 (spec_simple 2 "n2" 8 9 false false false true 2 true))
+                   (SMap (FTo [(None, 6%N)]))])
+  (SSeq (SNode sw_none 3 (spec_simple 3 "n3" 7 0 false false true false 0 false))
+  (SSeq (SNode (sw_outkey 4) 4 (spec_simple 3 "n4" 10 0 false true false false 2 false))
+  (SSeq (SMap (FTake 4 true))
+        (SNode sw_none 5 (spec_simple 1 "n5" 0 0 false false false true 0 false))))).
